@@ -793,6 +793,14 @@ pub(crate) fn check_if_response_is_matched(
             );
                 return Err(StatusCode::MalformedProtocolMessage.with_context(errmsg));
             }
+        } else if start_number != last_header.header().number() {
+            // Only reorg blocks: nothing in the response is about the blocks of `[start, last)`.
+            let errmsg = format!(
+                "there should be all blocks of [{}, {}) since no sampled blocks, but got nothing",
+                start_number,
+                last_header.header().number()
+            );
+            return Err(StatusCode::MalformedProtocolMessage.with_context(errmsg));
         }
     } else {
         // Check if the sampled headers are subject to requested difficulties distribution.
